@@ -408,7 +408,7 @@ def f_treeamend():
 
 # -- more families for the history checks (C01, C04, C06, C07) -------------------------------------
 
-def f_glob(present=("a", "b"), mode="tree", subs="none", cfg=0, nest=0, deep=0):
+def f_glob(present=("a", "b"), mode="tree", subs="none", cfg=0, nest=0, deep=0, broken=0):
     """One step per file matching data/${*n}.txt; the matches are static by tree or by pattern.
     subs="ab" restricts the named wildcard to [ab]: data/zz.txt then matches the default pattern
     of the wildcard but not the glob. cfg=1: the globbing is done by a sub-plan g.py that also
@@ -436,7 +436,9 @@ def f_glob(present=("a", "b"), mode="tree", subs="none", cfg=0, nest=0, deep=0):
     if cfg:
         files["cfg.txt"] = "cfg\n"
         files["g.py"] = script([["read", "cfg.txt"], globbing])
-        files["plan.py"] = script([decl, ["static", "cfg.txt", "g.py"], ["plan", "./g.py", {"inp": ["cfg.txt"]}]])
+        # broken=1: the plan fails before it gets to define the globbing sub-plan
+        tail = [["exit", 1]] if broken else [["plan", "./g.py", {"inp": ["cfg.txt"]}]]
+        files["plan.py"] = script([decl, ["static", "cfg.txt", "g.py"], *tail])
     else:
         files["plan.py"] = script([decl, globbing])
     return files
@@ -633,7 +635,7 @@ DOMAINS = {
                 "b_out": ("b.txt", "b2.txt"), "c": (1, 0), "src": ("x", "y"), "src_exists": (1, 0)},
     "f_subplan": {"sub": (1, 0), "where": ("sub", "root"), "inputs": ("explicit", "tree")},
     "f_glob": {"present": (("a", "b"), ("a",), ("a", "b", "c"), (), ("a", "zz")), "mode": ("tree", "pattern"),
-               "subs": ("none", "ab")},
+               "subs": ("none", "ab"), "broken": (0, 1)},
     "f_amend": {"version": ("inp", "none", "inp_out"), "extra": ("static", "built", "absent", "optional"),
                 "order": ("amend_first", "read_first"), "how": ("amend", "declared")},
     "f_env": {"how": ("declared", "amended"), "v": (1, 2), "ovr": ("none", "o", "p")},
